@@ -349,6 +349,28 @@ func ZZ_C12_min_commit_push() {
 	zzAssert(zzLockSameExcept(r0.lock, r1.lock, false, true), "push.rest-of-lock-unchanged")
 }
 
+// ZZ_C12_prewrite_keeps_pushes: a prewrite over the transaction's own lock (the pessimistic lock it
+// converts, or an earlier prewrite lock) never lowers the lock's min-commit-ts or its ttl: what a
+// reader's check-txn-status or the ttl manager's heart-beat has pushed stays pushed.
+func ZZ_C12_prewrite_keeps_pushes() {
+	w := zzNewWorld()
+	k := w.keyAndPrefix()
+	t := w.pickTxn("txn")
+	key := zzKeys[k]
+	r0 := w.raw(key)
+	if !r0.lockedBy(t.start) {
+		return
+	}
+	a := w.drawPrewrite("pw")
+	if w.prewrite(k, t, a) != nil {
+		return
+	}
+	r1 := w.raw(key)
+	zzAssert(r1.lockedBy(t.start), "prewrite-own.lock-present")
+	zzAssert(r1.lock.minCommitTS >= r0.lock.minCommitTS, "prewrite-own.never-lowers-min-commit-ts")
+	zzAssert(r1.lock.ttl >= r0.lock.ttl, "prewrite-own.never-lowers-ttl")
+}
+
 // ZZ_C12_commit_min_commit_ts: a commit of the transaction's own lock is
 // rejected (changing nothing) exactly when the commit ts is below the lock's
 // min-commit-ts; otherwise it succeeds, removes the lock and leaves one record
